@@ -10,12 +10,14 @@
 #define LIBC_SAFETY_ABSTRACTION 1
 #include "libc.h"
 #include "text_contracts.h"
+#include "tok_contracts.h"
 static char FBUF[FILTERED_STR_LEN];
 int g_key; unsigned g_len20; int g_fmt; char g_t[4];
 void h_bound20(void) {
   struct instr I = {0}; uint8_t o; I.assembly_opt = o;
   for (int i = 0; i < FILTERED_STR_LEN - 1; i++) { char c; FBUF[i] = c; }
   FBUF[FILTERED_STR_LEN - 1] = 0; g_buf = FBUF;
+  ASSUME(FBUF[0] >= 'A' && FBUF[0] <= 'z');   /* what the filter leaves at the start of a non-empty line (filter postcondition group C) */
   STATIC_ZERO_INIT_INDEX_TABLES(); asm_build_index_tables();
   int rc = line_to_instr(&I, FBUF);
   if (rc != EXIT_SUCCESS) { REACH("rejected"); return; }
